@@ -807,7 +807,7 @@ class Unit:
             # The resulting quantity may get quantized. Therefore we
             # have to calculate the final amount before creating the result!
             amnt, unit = self * other.unit
-            return (other.amount * amnt) * unit
+            return _qty_or_num(other.amount * amnt, unit)
         return NotImplemented
 
     @overload
@@ -899,7 +899,7 @@ class Unit:
             # The resulting quantity may get quantized. Therefore we
             # have to calculate the final amount before creating the result!
             amnt, unit = self / other.unit
-            return (amnt / other.amount) * unit
+            return _qty_or_num(amnt / other.amount, unit)
         return NotImplemented
 
     def __rtruediv__(self, other: Any) -> Quantity:
@@ -1619,12 +1619,12 @@ class Quantity(metaclass=QuantityMeta):
             # The resulting quantity may get quantized. Therefore we
             # have to calculate the final amount before creating the result!
             amnt, unit = self.unit * other.unit
-            return (self.amount * other.amount * amnt) * unit
+            return _qty_or_num(self.amount * other.amount * amnt, unit)
         if isinstance(other, Unit):
             # The resulting quantity may get quantized. Therefore we
             # have to calculate the final amount before creating the result!
             amnt, unit = self.unit * other
-            return (self.amount * amnt) * unit
+            return _qty_or_num(self.amount * amnt, unit)
         if isinstance(other, Real):
             return self.__class__(self.amount * Decimal(other), self.unit)
         return NotImplemented
@@ -1779,6 +1779,14 @@ def _amnt_and_unit_from_term(term: UnitDefT) -> AmountUnitTupleT:
         else:
             raise
     return num, res_unit
+
+
+def _qty_or_num(amnt: Rational, unit: Optional[Unit]) \
+        -> Union[Quantity, Rational]:
+    """Return `amnt` * `unit`, or just `amnt` if there is no unit left."""
+    if unit is None:
+        return amnt
+    return amnt * unit
 
 
 def _qty_from_term(term: UnitDefT) -> BinOpResT:
